@@ -118,7 +118,28 @@ func verifNewProgram(which string) *program {
 	return &p
 }
 
+// verifSnapshotParams records every registered parameter value and returns a restore func:
+// parameter cells are shared process-wide, and a real process binds them only once.
+func verifSnapshotParams() func() {
+	type cell struct {
+		p *linter.CheckerParam
+		v interface{}
+	}
+	var cells []cell
+	for _, info := range linter.GetCheckersInfo() {
+		for _, p := range info.Params {
+			cells = append(cells, cell{p, p.Value})
+		}
+	}
+	return func() {
+		for _, c := range cells {
+			c.p.Value = c.v
+		}
+	}
+}
+
 func verifRunCase(c *verifCase) (res verifResult) {
+	defer verifSnapshotParams()()
 	defer func() {
 		if r := recover(); r != nil {
 			res.Panic = fmt.Sprint(r)
